@@ -1,7 +1,9 @@
 //! One module per property.
 use crate::verif::report::Report;
 
+pub(crate) mod c07;
 pub(crate) mod c10;
+pub(crate) mod c13;
 pub(crate) mod c14;
 pub(crate) mod c15;
 pub(crate) mod panics;
@@ -22,7 +24,9 @@ impl Opts {
 pub(crate) fn run(id: &str, opts: &Opts) -> Option<i32> {
     let mut report = Report::new(id, &opts.tier, opts.seed);
     match id {
+        "C07" => c07::run(opts, &mut report),
         "C10" => c10::run(opts, &mut report),
+        "C13" => c13::run(opts, &mut report),
         "C14" => c14::run(opts, &mut report),
         "C15" => c15::run(opts, &mut report),
         _ => return None,
